@@ -803,6 +803,12 @@ func (g *submitEngine) genCase(r *Rand, name string, nops int, wide bool) *submi
 	P0 := add(gen.ca("P0", I0, true, false, far), "I0") // precertificate signing certificate under an intermediate
 	P1 := add(gen.ca("P1", R1, true, false, far), "R1") // … directly under a root
 	RP := add(gen.ca("RP", nil, true, false, far), "")  // a trusted root that itself has the CT EKU
+	// a trusted self-signed certificate that is itself a precertificate (poison, serverAuth, NotAfter inside the window)
+	rqNA := time.Unix((startNs/1e9+limitNs/1e9)/2+1, 0).UTC()
+	if rqNA.UnixNano() >= limitNs {
+		rqNA = time.Unix(startNs/1e9+1, 0).UTC()
+	}
+	RQ := add(gen.ca("RQ", nil, false, true, rqNA), "")
 	_ = K0
 	issuersCert := []*submitCert{R0, I0, I1, J0, R1}
 	issuersPre := []*submitCert{R0, I0, I1, J0, P0, P0, P1, P1}
@@ -842,7 +848,7 @@ func (g *submitEngine) genCase(r *Rand, name string, nops int, wide bool) *submi
 		c.Ops = append(c.Ops, submitOp{Op: "getroots"})
 	}
 	c.Ops = append(c.Ops, submitOp{Op: "getroots"}) // a new log has no roots
-	setRoots([]string{"R0", "R1", "RP"}, "")
+	setRoots([]string{"R0", "R1", "RP", "RQ"}, "")
 
 	nleaf := 0
 	var accepted []submitOp
@@ -855,7 +861,7 @@ func (g *submitEngine) genCase(r *Rand, name string, nops int, wide bool) *submi
 	}
 	na := func() int64 {
 		s, l := startNs/1e9, limitNs/1e9
-		switch r.Intn(12) {
+		switch r.Intn(16) {
 		case 0:
 			return s - 1
 		case 1:
@@ -897,9 +903,9 @@ func (g *submitEngine) genCase(r *Rand, name string, nops int, wide bool) *submi
 			case 0:
 				setRoots([]string{"R1"}, "")
 			case 1:
-				setRoots([]string{"R0", "R1", "RP"}, "")
+				setRoots([]string{"R0", "R1", "RP", "RQ"}, "")
 			case 2:
-				setRoots([]string{"R0", "R0", "RP", "R1", "R0"}, "") // duplicates
+				setRoots([]string{"R0", "R0", "RP", "R1", "RQ", "R0"}, "") // duplicates
 			case 3:
 				setRoots(append([]string{}, roots...), "garbage-block")
 			case 4:
@@ -915,7 +921,18 @@ func (g *submitEngine) genCase(r *Rand, name string, nops int, wide bool) *submi
 		case x < 6:
 			c.Ops = append(c.Ops, submitOp{Op: "restart"}, submitOp{Op: "getroots"})
 			continue
-		case x < 9 && len(accepted) > 0:
+		case x < 7:
+			// the precertificate is itself a trusted self-signed certificate: it has no issuer in the chain
+			ep := "add-pre-chain"
+			if r.Chance(25) {
+				ep = "add-chain"
+			}
+			c.Ops = append(c.Ops, submitOp{Op: "sub", Name: fmt.Sprintf("RQ-%d", len(c.Ops)), Endpoint: ep, Method: "POST",
+				Body: mkBody([][]byte{RQ.DER}), Why: "precert-is-root",
+				Facts: &submitFacts{Body: "ok", Chain: []string{"RQ"}, Parses: true, NotAfterNs: rqNA.UnixNano(), ServerAuth: true, Linked: true,
+					Anchor: "RQ", AnchorSubmitted: true, Poison: "valid", DefangOK: true}})
+			continue
+		case x < 10 && len(accepted) > 0:
 			// exact resubmission of an earlier request
 			op := accepted[r.Intn(len(accepted))]
 			op.Name = fmt.Sprintf("%s-again%d", op.Name, len(c.Ops))
@@ -1138,7 +1155,7 @@ func submitRun(args []string) int {
 	}
 	defer os.RemoveAll(dir)
 	g := &submitEngine{o: o, dir: dir, trace: NewTrace(o.Out), seen: map[string]int{},
-		hc: &http.Client{Timeout: 30 * time.Second},
+		hc:    &http.Client{Timeout: 30 * time.Second},
 		stats: NewStats("submit", "one HTTP request to the real add-chain/add-pre-chain/get-roots handlers of a real log; counted when the body is well-formed and every certificate parses (the decision then depends on the chain, window, EKU, type and endpoint)")}
 	code := 0
 	fail := func(err error) {
